@@ -160,7 +160,8 @@ pub fn gen(a: &Args) {
     let mut k = 0;
     while w.len() < a.n {
         let n = [5i64, 30, 120, 400][rng.below(4) as usize];
-        let len = [4usize, 32, 200][rng.below(3) as usize];
+        let len = [0usize, 4, 32, 200][rng.below(4) as usize];
+        if len == 0 { w.count("strings.empty"); }
         let progs = progs::all(n, len);
         let (name, m) = progs[k % progs.len()].clone();
         let limit = limits[rng.below(limits.len() as u64) as usize];
